@@ -140,16 +140,17 @@ def jobs(tier):
               ("vpsc::Node", "struct NodeM", ["v", "r", "pos", "firstAbove", "firstBelow", "leftNeighbours", "rightNeighbours"])]
     js.append(c01.mirror_job(c01.EXTERN + vp + rect_pre.replace("@RECT_INLINES@", "") + node_pre, spec, mirror))
     rslices = [S[f] for f in INL]
-    dom = "scaled-integer mode: all coordinates, positions and borders multiples of 4 with |v| <= 2^40 (borders in [0,4096]); overflow-checked"
+    limbits = 40 if tier == "quick" else 52
+    dom = "scaled-integer mode: all coordinates, positions and borders multiples of 4 with |v| <= 2^%d (borders in [0,4096]); overflow-checked" % limbits
     for which, f in enumerate(["moveCentreX", "moveCentreY", "moveMinX", "moveMinY"]):
-        js.append(Job("size_" + f, "D", spec, "h_move", cxx=tu(True), defines=["JOB_move", "INT_MODE", "WHICH=%d" % which],
+        js.append(Job("size_" + f, "D", spec, "h_move", cxx=tu(True), defines=["JOB_move", "INT_MODE", "WHICH=%d" % which, "LIM=(1LL<<%d)" % limbits],
                       slices=rslices, domain=dom, expect=[r'h_move\.assertion', r'COLA_ASSERT|assertion'], replay=replay_c09, timeout=600,
                       flags=["--sat-solver", "cadical"], backend="sat:cadical"))
-    js.append(Job("overlap_geometry", "D", spec, "h_overlap", cxx=tu(True), defines=["JOB_overlap", "INT_MODE"], slices=rslices, domain=dom,
+    js.append(Job("overlap_geometry", "D", spec, "h_overlap", cxx=tu(True), defines=["JOB_overlap", "INT_MODE", "LIM=(1LL<<%d)" % limbits], slices=rslices, domain=dom,
                   expect=[r'h_overlap\.assertion'], replay=replay_c09, timeout=600, flags=["--sat-solver", "cadical"], backend="sat:cadical"))
     for k in range(6):
         js.append(Job("separation_%d_%s" % (k, "xy"[sepdims[k]]), "D", spec, "h_sep", cxx=tu(True, sepfun),
-                      defines=["JOB_sep", "INT_MODE", "KIDX=%d" % k, "KDIM=%d" % sepdims[k]], slices=rslices + [S["seps"]], domain=dom,
+                      defines=["JOB_sep", "INT_MODE", "KIDX=%d" % k, "KDIM=%d" % sepdims[k], "LIM=(1LL<<%d)" % limbits], slices=rslices + [S["seps"]], domain=dom,
                       expect=[r'h_sep\.assertion'], replay=replay_c09, timeout=600, flags=["--sat-solver", "cadical"], backend="sat:cadical",
                       note="sep expression: " + seps[k].strip()))
     # ---- borders restored: projection of removeoverlaps onto its border statements
